@@ -599,8 +599,20 @@ def gen_index_case(rng, tier="quick"):
     storage = rng.choice(["ram", "ram", "file", "file-nommap"])
     if codec != "w3":
         history, ncommits, storage = "single", 1, "ram"
+    # further scorable fields, with names sorting before and after "f" and per-document lengths that
+    # differ clearly from field to field (long body / short title): per-field statistics must not mix
+    aux = rng.choice([[], ["a0"], ["z9"], ["a0", "z9"], ["a0", "z9"], ["a0", "b1", "z9"], ["g2", "z9"]])
     return {"fmt": fmt, "vfmt": vfmt, "fb": fb, "scorable": scorable, "codec": codec, "bl": bl, "comp": comp,
-            "inl": inl, "docs": docs, "history": history, "ncommits": ncommits, "storage": storage}
+            "inl": inl, "docs": docs, "history": history, "ncommits": ncommits, "storage": storage, "aux": aux}
+
+
+AUX_LEN = {"a0": lambda d: 40 + 3 * (d % 7), "b1": lambda d: 5 + (d * 5) % 11, "g2": lambda d: 90 - 2 * (d % 5),
+           "z9": lambda d: 1 + d % 3}
+
+
+def aux_has(name, d):
+    """Does document `d` have the auxiliary field?  (some documents omit it)"""
+    return (d + len(name) + ord(name[0])) % 5 != 0
 
 
 def index_case_line(c):
@@ -622,11 +634,13 @@ def _build_index(c, tmpdir):
     from whoosh.filedb.filestore import RamStorage, FileStorage
     schema = fields.Schema(id=fields.ID(stored=True),
                            f=make_field(c["fmt"], c["fb"], c["vfmt"], c["scorable"]))
+    for name in c.get("aux", []):
+        schema.add(name, fields.TEXT(phrase=False))
     if c["codec"] == "memory":
         from whoosh.codec.memory import MemoryCodec
         codec = MemoryCodec()
         w = codec.writer(schema)
-        _add_docs(w, c["docs"], 0)
+        _add_docs(w, c["docs"], 0, c.get("aux", []))
         w.commit()
         return codec.reader(schema), None
     if c["storage"] == "ram":
@@ -647,7 +661,7 @@ def _build_index(c, tmpdir):
     bounds = [round(i * n / k) for i in range(k + 1)]
     for i in range(k):
         w = ix.writer(codec=codec)
-        _add_docs(w, c["docs"][bounds[i]:bounds[i + 1]], bounds[i])
+        _add_docs(w, c["docs"][bounds[i]:bounds[i + 1]], bounds[i], c.get("aux", []))
         last = i == k - 1
         if c["history"] == "merged" and last:
             w.commit(optimize=True)
@@ -656,9 +670,12 @@ def _build_index(c, tmpdir):
     return ix.reader(), ix
 
 
-def _add_docs(w, docs, base):
+def _add_docs(w, docs, base, aux=()):
     for j, (boost, toks) in enumerate(docs):
         kw = {"id": u"%d" % (base + j)}
+        for name in aux:
+            if aux_has(name, base + j):
+                kw[name] = u" ".join([u"xx"] * AUX_LEN[name](base + j))
         if toks is not None:
             kw["f"] = tokens_to_text(toks)
         if boost != 1.0:
@@ -853,6 +870,47 @@ def _compare_index(c, r, spec, viol, stats):
         except Exception as e:  # noqa
             bad("reader.term_info:exception:" + type(e).__name__, "term_info of %r" % text, repr(e)[:200],
                 "term_info raised")
+    # the other scorable fields: statistics of their one term `x` are aggregates of *their own* lengths
+    if codec != "plain":
+        for name in c.get("aux", []):
+            have = [d for d in sorted(docs) if aux_has(name, d)]
+            if not have:
+                continue
+            lens = [AUX_LEN[name](d) for d in have]
+            conv = (lambda x: byte_to_length(length_to_byte(x))) if codec == "w3" else (lambda x: x)
+            try:
+                ti = r.term_info(name, u"xx")
+                exp = ("%d" % len(have), "%d" % conv(min(lens)), "%d" % conv(max(lens)))
+                got = ("%d" % ti.doc_frequency(), "%d" % (ti.min_length() or 0), "%d" % ti.max_length())
+                for what, a, b in zip(["doc_frequency", "min_length", "max_length"], exp, got):
+                    if a != b:
+                        bad("reader.term_info:%s:of-another-scorable-field" % what, a, b,
+                            "field %r (fields %r), term 'x'" % (name, ["f"] + c["aux"]))
+                        break
+                # every posting lies within the length bounds its block advertises, and has its own length
+                m = r.postings(name, u"xx")
+                by_real = {real[d]: d for d in have}
+                while m.is_active():
+                    d = by_real.get(m.id())
+                    if d is None:
+                        bad("reader.postings:id:of-another-scorable-field", sorted(by_real), m.id(), "field %r" % name)
+                        break
+                    lb = length_to_byte(AUX_LEN[name](d))
+                    if r.doc_field_length(m.id(), name) != conv(AUX_LEN[name](d)):
+                        bad("reader.doc_field_length:of-another-scorable-field", conv(AUX_LEN[name](d)),
+                            r.doc_field_length(m.id(), name), "field %r document %d" % (name, d))
+                        break
+                    if m.supports_block_quality() and hasattr(m, "block_min_length"):
+                        lo, hi = length_to_byte(m.block_min_length()), length_to_byte(m.block_max_length())
+                        if not (lo <= lb <= hi):
+                            bad("matcher.block_min/max_length:posting-outside-the-advertised-bounds", lb, (lo, hi),
+                                "field %r document %d (length bytes)" % (name, d))
+                            break
+                    m.next()
+                stats["aux"] = stats.get("aux", 0) + 1
+            except Exception as e:  # noqa
+                bad("reader.term_info:exception:" + type(e).__name__, "term_info of %r.x" % name, repr(e)[:200],
+                    "term_info / postings of another scorable field raised")
     # vectors
     if c["vfmt"]:
         vobj = make_fmt(c["vfmt"], c["fb"])
@@ -922,7 +980,8 @@ def _compare_index(c, r, spec, viol, stats):
                         "vector_as(%r, %d, 'f'), posting format %s, vector format %s" % (name, dn, c["fmt"], c["vfmt"]))
                     break
     # all_terms(): every (field, term) of the index
-    want_terms = sorted([("f", bytes.fromhex(h)) for h in posts] + [("id", b"%d" % o) for o in sorted(orig.values())])
+    want_terms = sorted([("f", bytes.fromhex(h)) for h in posts] + [("id", b"%d" % o) for o in sorted(orig.values())]
+                        + [(name, b"xx") for name in c.get("aux", []) if any(aux_has(name, d) for d in orig.values())])
     try:
         have_terms = sorted((fn, bytes(t)) for fn, t in r.all_terms())
     except Exception as ex:  # noqa
